@@ -137,6 +137,13 @@ func (c *ctx) commandCases(kind string, n int) {
 				bad[pos] += byte(1 + c.rng.Intn(255))
 				stream = append(stream, bad...)
 				stream = append(stream, xsens.NewMessage(ack, c.ackPayload(o.name))...)
+			case mode == 4: // valid frames with the Error identifier that are not device errors (payload length != 1), and one that is
+				for _, n := range []int{0, 2, 3, 1} {
+					if ack != xsens.MessageIdentifierError {
+						stream = append(stream, xsens.NewMessage(xsens.MessageIdentifierError, c.payload(n))...)
+					}
+				}
+				stream = append(stream, xsens.NewMessage(ack, c.ackPayload(o.name))...)
 			case mode == 3: // the largest frames a device may send, unrelated, in front of the acknowledge
 				big := []int{2046, 2047, 2048}[c.rng.Intn(3)]
 				stream = append(stream, xsens.NewMessage(xsens.MessageIdentifier(0x3e), c.payload(big))...)
@@ -151,6 +158,10 @@ func (c *ctx) commandCases(kind string, n int) {
 			following := c.unrelatedFrame(0)
 			stream = append(stream, following...)
 			ops = append(ops, cop{kind: "receive"}, cop{kind: "rawmsg"}, cop{kind: "msgid"})
+			if mode == 0 {
+				break // the command ran into the end of the stream: nothing may follow (a later command's acknowledge
+				// would otherwise be taken for this one's, with a payload its decoder was not meant for)
+			}
 		}
 		ops = append(ops, cop{kind: "receive"}, cop{kind: "rawmsg"}, cop{kind: "receive"})
 		scheds := c.schedules(len(stream), false)
@@ -226,6 +237,7 @@ func init() {
 		for i := 0; i < c.pick(150, 1500); i++ {
 			c.clientStreamCase("client", 1+c.rng.Intn(5), i%2 == 0)
 		}
+		c.clientBigFrames("client")
 		// a clean message carrying every type x precision x coordinate system once
 		for prec := 0; prec < 4; prec++ {
 			for coord := 0; coord < 16; coord += 4 {
@@ -303,9 +315,11 @@ func init() {
 		// the decoders on arbitrary payloads into receivers in every prior state (a decoder must not panic because of what an
 		// earlier call left behind): the C13 sequences
 		c.ocUnmarshalSequences(c.pick(40, 400))
+		c.clientBigFrames("client")
 	}
 	props["C10"] = func(c *ctx) {
 		c.failureCases("client10", c.pick(12, 120))
+		c.clientBigFrames("client10")
 		// rejected frames at every position of a stream of frames
 		for i := 0; i < c.pick(40, 400); i++ {
 			nf := 3 + c.rng.Intn(3)
